@@ -109,6 +109,27 @@ func (g *opGen) abstractSelection(t *fedType, depth int) string {
 	if t.Abstract == "interface" && W.Prob(0.5) {
 		parts = append(parts, "id")
 	}
+	if t.Abstract == "interface" && g.s.IfaceFieldsInOps {
+		// fields declared on the interface itself, selected without a type condition
+		for _, f := range t.Fields {
+			if !W.Prob(0.5) {
+				continue
+			}
+			tt := g.s.typ(f.Type.Name)
+			if tt != nil && depth <= 0 {
+				continue
+			}
+			sub := ""
+			if tt != nil {
+				saved := g.forceAlias
+				g.forceAlias = false
+				sub = " " + g.selection(tt.Name, depth-1)
+				g.forceAlias = saved
+			}
+			g.fields++
+			parts = append(parts, f.Name+sub)
+		}
+	}
 	saved := g.forceAlias
 	g.forceAlias = true
 	for _, m := range t.Members {
